@@ -7,6 +7,7 @@ from engine.cfg import CFG, normalise_compare, atoms
 from engine.dataflow import ReachingDefs
 from engine.effects import WriteSets
 from engine.model import src, stmt_key, dotted, walk_no_nested
+from engine import pat
 from engine.util import own_nodes, calls_with_nodes, where
 from rules.c06 import check_operator_table
 
@@ -356,7 +357,7 @@ def run(model, rep, tier):
                   "update_ttl(other.ttl) then the set operation", f"{mname} no longer minimises the TTL with other.ttl before merging", stmt="ttl-on-merge")
     up = model.func("dns.rdataset.Rdataset.update_ttl")
     t = " ".join(src(up.node).split())
-    rep.check("if len(self) == 0: self.ttl = ttl elif ttl < self.ttl: self.ttl = ttl" in t and "ttl = dns.ttl.make(ttl)" in t, "R-07.6", up.qualname, where(up, up.node),
+    rep.check(pat.has(up.node, "ttl = dns.ttl.make(ttl)\nif len(self) == 0:\n    self.ttl = ttl\nelif ttl < self.ttl:\n    self.ttl = ttl"), "R-07.6", up.qualname, where(up, up.node),
               "TTL := ttl if empty else min(ttl, current)", "update_ttl no longer computes the minimum", stmt="min-ttl")
     cov = [t for t in cfg.nodes if t.kind == "test" and atoms(normalise_compare(t.ast.test)) == [("self.covers", "!=", "covers")]]
     dc = [r for r in raises if "DifferingCovers" in src(r.ast)]
